@@ -1,7 +1,7 @@
 (* C03 — A successfully loaded module is structurally well-formed. *)
 From Coq Require Import ZArith List Lia Bool.
 Import ListNotations.
-From LX Require Import Base.ListAux Generated.Consts Model.ModuleWf Model.Gate Proofs.GateProofs Model.SeqScan Proofs.SeqScanProofs Model.ModLoad Proofs.ModLoadProofs Model.C669Load Proofs.C669LoadProofs.
+From LX Require Import Base.ListAux Generated.Consts Model.ModuleWf Model.Gate Proofs.GateProofs Model.SeqScan Proofs.SeqScanProofs Model.ModLoad Proofs.ModLoadProofs Model.C669Load Proofs.C669LoadProofs Model.MtmLoad Proofs.MtmLoadProofs Model.S3MLoad Proofs.S3MLoadProofs.
 Local Open Scope Z_scope.
 
 (* Whatever a loader leaves behind (arbitrary integers in every field), if the sanity gate, the epilogue and
@@ -137,6 +137,39 @@ Theorem composer669_module_is_wf : forall file r m,
   Forall (fun b => 0 <= b <= 255) file -> c669_raw file = Some r -> finish r = Some m -> wf_noseq m = true.
 Proof. exact c669_loaded_module_is_wf. Qed.
 Print Assumptions composer669_module_is_wf.
+
+(* ... and for the MultiTracker loader (Model/MtmLoad.v), whose patterns name their tracks by number: besides the post-condition,
+   every track number the loader stores is below the track count (numbers at or above it are replaced by track 0), for every
+   byte string *)
+Theorem mtm_loader_establishes_post : forall file r,
+  Forall (fun b => 0 <= b <= 255) file -> mtm_raw file = Some r -> loader_postb r = true.
+Proof. exact MtmLoadProofs.mtm_loader_establishes_post. Qed.
+Print Assumptions mtm_loader_establishes_post.
+
+Theorem multitracker_module_is_wf : forall file r m,
+  Forall (fun b => 0 <= b <= 255) file -> mtm_raw file = Some r -> finish r = Some m -> wf_noseq m = true.
+Proof. exact mtm_loaded_module_is_wf. Qed.
+Print Assumptions multitracker_module_is_wf.
+
+Theorem mtm_track_numbers_in_range : forall file r,
+  Forall (fun b => 0 <= b <= 255) file -> mtm_raw file = Some r ->
+  Forall (fun op => match op with Some p => Forall (fun t => 0 <= t < d_trk (r_m r)) (p_index p) | None => True end) (d_pats (r_m r)) /\
+  Forall (fun ot => ot = Some 64) (d_trks (r_m r)) /\ zlen (d_trks (r_m r)) = d_trk (r_m r).
+Proof. exact mtm_track_indices_in_range. Qed.
+Print Assumptions mtm_track_numbers_in_range.
+
+(* ... and for the Scream Tracker 3 loader (Model/S3MLoad.v), which reaches patterns, instrument headers and sample data through
+   parapointers taken from the file: whatever those point at - the header, each other, past the end - an accepted file satisfies
+   the post-condition *)
+Theorem s3m_loader_establishes_post : forall file r,
+  Forall (fun b => 0 <= b <= 255) file -> s3m_raw file = Some r -> loader_postb r = true.
+Proof. exact S3MLoadProofs.s3m_loader_establishes_post. Qed.
+Print Assumptions s3m_loader_establishes_post.
+
+Theorem screamtracker3_module_is_wf : forall file r m,
+  Forall (fun b => 0 <= b <= 255) file -> s3m_raw file = Some r -> finish r = Some m -> wf_noseq m = true.
+Proof. exact s3m_loaded_module_is_wf. Qed.
+Print Assumptions screamtracker3_module_is_wf.
 
 (* non-vacuity: a 669 file with one pattern, two orders and one four-byte sample whose loop start is 0x80000000 (negative once
    stored in an int) and whose loop end is 3: the loader accepts it, the sample loader clamps the loop to 0..3, the gate lets it
